@@ -8,7 +8,7 @@ read demo dest pkg run prop < <(python3 -c "
 import json; d=json.load(open('/tmp/seed_out/$n/meta.json')); print(d['demo_file'],d['demo_dest'],d['demo_pkg'],d['demo_run'],d['property'])")
 echo "== $n ($prop) demo=$demo dest=$dest pkg=$pkg run=$run"
 tools/verify_seed.sh /tmp/seed_out/$n "$demo" "$dest" "$pkg" "$run" 2>&1 | grep -- "---\|^ok\|^FAIL\|APPLY" | head -14
-d=$(mktemp -d /tmp/tryseed.XXXXXX)
+true; d=$(mktemp -d /tmp/tryseed.XXXXXX)
 rsync -a --exclude .git /repo/ "$d/repo/"
 ( cd "$d/repo" && patch -p1 -s < /tmp/seed_out/$n/patch.diff ) || echo "PATCH FAILED on current tree"
 for p in $prop "$@"; do
